@@ -1,6 +1,192 @@
-"""String and regex models (filled in for the naming / cue-sheet properties)."""
+"""String and regular-expression models over ASCII (DESIGN 2.4).
+
+Patterns are read from the compiled pattern objects of the real modules (live dump) and translated
+mechanically through `re._parser.parse` into z3 regular expressions.  `match` truth is EXACT
+(membership in R . Sigma*); capture groups are uninterpreted functions of (pattern, text) constrained to
+their group language (a sound over-approximation of which occurrence is captured)."""
+import re
 import z3
 from .values import *
+
+try:
+    import re._parser as sre_parse
+    import re._constants as sre_c
+except ImportError:  # pragma: no cover
+    import sre_parse
+    import sre_constants as sre_c
+
+ASCII_MAX = 127
+_WORD = [c for c in range(128) if re.match(r"\w", chr(c))]
+_SPACE = [c for c in range(128) if re.match(r"\s", chr(c))]
+_DIGIT = [c for c in range(128) if re.match(r"\d", chr(c))]
+
+
+def _chars_re(codes):
+    """Union of single characters given as a set of code points, grouped into ranges."""
+    codes = sorted(set(codes))
+    if not codes:
+        return z3.Empty(z3.ReSort(z3.StringSort()))
+    parts, lo, prev = [], codes[0], codes[0]
+    for c in codes[1:] + [None]:
+        if c is not None and c == prev + 1:
+            prev = c
+            continue
+        parts.append(z3.Range(chr(lo), chr(prev)) if lo != prev else z3.Re(chr(lo)))
+        if c is not None:
+            lo = prev = c
+    return parts[0] if len(parts) == 1 else z3.Union(parts)
+
+
+def _class_codes(items, ignorecase):
+    codes = set()
+    negate = False
+    for op, av in items:
+        if op == sre_c.NEGATE:
+            negate = True
+        elif op == sre_c.LITERAL:
+            codes.add(av)
+        elif op == sre_c.RANGE:
+            codes.update(range(av[0], av[1] + 1))
+        elif op == sre_c.CATEGORY:
+            codes.update(_category(av))
+        else:
+            raise Unsupported(f"regex class item {op}")
+    codes = {c for c in codes if c <= ASCII_MAX}
+    if ignorecase:
+        codes |= {ord(chr(c).swapcase()) for c in codes if chr(c).isalpha()}
+    if negate:
+        codes = set(range(0, ASCII_MAX + 1)) - codes
+    return codes
+
+
+def _category(av):
+    table = {sre_c.CATEGORY_DIGIT: _DIGIT, sre_c.CATEGORY_SPACE: _SPACE, sre_c.CATEGORY_WORD: _WORD}
+    neg = {sre_c.CATEGORY_NOT_DIGIT: _DIGIT, sre_c.CATEGORY_NOT_SPACE: _SPACE, sre_c.CATEGORY_NOT_WORD: _WORD}
+    if av in table:
+        return set(table[av])
+    if av in neg:
+        return set(range(128)) - set(neg[av])
+    raise Unsupported(f"regex category {av}")
+
+
+class Translated:
+    def __init__(self, pattern, flags):
+        self.pattern = pattern
+        self.flags = flags
+        self.groups = {}          # group number -> z3 re of the group's sub-pattern
+        self.digit_groups = set() # groups of the form (\d+): int() of their text cannot fail
+        self.anchored_end = False
+        tree = sre_parse.parse(pattern, flags)
+        items = list(tree)
+        if items and items[-1][0] == sre_c.AT and items[-1][1] in (sre_c.AT_END, sre_c.AT_END_STRING):
+            self.anchored_end = True
+            items = items[:-1]
+        self.ic = bool(flags & re.I)
+        self.body = self.seq(items)
+
+    def seq(self, items):
+        parts = [self.one(op, av) for op, av in items]
+        if not parts:
+            return z3.Re("")
+        return parts[0] if len(parts) == 1 else z3.Concat(parts)
+
+    def one(self, op, av):
+        if op == sre_c.LITERAL:
+            ch = chr(av)
+            if self.ic and ch.isalpha():
+                return _chars_re({av, ord(ch.swapcase())})
+            return z3.Re(ch)
+        if op == sre_c.NOT_LITERAL:
+            bad = {av} | ({ord(chr(av).swapcase())} if self.ic and chr(av).isalpha() else set())
+            return _chars_re(set(range(128)) - bad)
+        if op == sre_c.ANY:
+            return _chars_re(set(range(128)) - {10})
+        if op == sre_c.IN:
+            return _chars_re(_class_codes(av, self.ic))
+        if op == sre_c.CATEGORY:
+            return _chars_re(_category(av))
+        if op in (sre_c.MAX_REPEAT, sre_c.MIN_REPEAT):
+            lo, hi, sub = av
+            r = self.seq(list(sub))
+            if hi == sre_c.MAXREPEAT:
+                if lo == 0:
+                    return z3.Star(r)
+                if lo == 1:
+                    return z3.Plus(r)
+                return z3.Concat(z3.Loop(r, lo, lo), z3.Star(r))
+            return z3.Loop(r, lo, hi)
+        if op == sre_c.SUBPATTERN:
+            group, add_flags, del_flags, sub = av
+            r = self.seq(list(sub))
+            if group is not None:
+                self.groups[group] = r
+                sl = list(sub)
+                if len(sl) == 1 and sl[0][0] in (sre_c.MAX_REPEAT, sre_c.MIN_REPEAT) and sl[0][1][0] >= 1:
+                    inner = list(sl[0][1][2])
+                    if len(inner) == 1 and inner[0] == (sre_c.IN, [(sre_c.CATEGORY, sre_c.CATEGORY_DIGIT)]):
+                        self.digit_groups.add(group)
+            return r
+        if op == sre_c.BRANCH:
+            _, alts = av
+            return z3.Union([self.seq(list(a)) for a in alts])
+        if op == sre_c.AT and av in (sre_c.AT_BEGINNING, sre_c.AT_BEGINNING_STRING):
+            return z3.Re("")
+        raise Unsupported(f"regex construct {op} in {self.pattern!r}")
+
+    def match_re(self):
+        """Language of texts on which Pattern.match succeeds (anchored at 0, open at the end unless `$`)."""
+        if self.anchored_end:
+            return self.body
+        return z3.Concat(self.body, z3.Star(_chars_re(range(128))))
+
+
+_CACHE = {}
+
+
+def translate(rx):
+    key = (rx.pattern, rx.flags)
+    if key not in _CACHE:
+        _CACHE[key] = Translated(rx.pattern, rx.flags)
+    return _CACHE[key]
+
+
+def _fname(rx):
+    import hashlib
+    return hashlib.md5(f"{rx.pattern}|{rx.flags}".encode()).hexdigest()[:8]
+
+
+def regex_method(interp, recv, name, args, kwargs, fr):
+    if name == "match":
+        text = zstr(args[0])
+        tr = translate(recv)
+        interp.trusted.add("re: Pattern.match(s) succeeds iff s is in R.Sigma* (R translated from the compiled pattern, ASCII); "
+                           "capture groups are functions of (pattern, s) lying in their group's language")
+        ok = z3.InRe(text, tr.match_re())
+        m = MatchV(recv, text, tr)
+        # group languages hold whenever the match succeeds
+        for g, r in tr.groups.items():
+            gf = z3.Function(f"re_group_{_fname(recv)}_{g}", z3.StringSort(), z3.StringSort())
+            interp.run.assume(z3.Implies(ok, z3.InRe(gf(text), r)))
+            if g in tr.digit_groups:
+                if not hasattr(interp, "digit_terms"):
+                    interp.digit_terms = set()
+                interp.digit_terms.add(gf(text).sexpr())
+        return OptV(z3.Not(ok), m)
+    raise Unsupported(f"regex method {name}")
+
+
+def match_method(interp, m, name, args, kwargs, fr):
+    def grp(g):
+        gf = z3.Function(f"re_group_{_fname(m.rx)}_{g}", z3.StringSort(), z3.StringSort())
+        return gf(m.text)
+    if name == "groups":
+        return tuple(grp(g) for g in sorted(m.tr.groups))
+    if name == "group":
+        g = args[0] if args else 0
+        if g == 0:
+            raise Unsupported("match.group(0)")
+        return grp(g)
+    raise Unsupported(f"match method {name}")
 
 
 def str_method(interp, recv, name, args, kwargs, fr):
@@ -31,13 +217,11 @@ def str_method(interp, recv, name, args, kwargs, fr):
             return ""
         return z3.Concat(parts) if len(parts) > 1 else parts[0]
     if name in ("lower", "upper", "strip"):
-        # uninterpreted total functions on strings (sound: no property of them is assumed
-        # beyond functionality) unless a string theory model is installed by strings_ext
         f = z3.Function("py_str_" + name, z3.StringSort(), z3.StringSort())
-        interp.trusted.add(f"engine: str.{name} is an uninterpreted function String->String")
-        return f(zstr(recv))
+        interp.trusted.add(f"engine: str.{name} is an uninterpreted function String->String"
+                           + (" with strip(strip(s)) == strip(s)" if name == "strip" else ""))
+        r = f(zstr(recv))
+        if name == "strip":
+            interp.run.assume(f(r) == r)      # idempotence (true of str.strip)
+        return r
     raise Unsupported(f"str.{name}")
-
-
-def regex_method(interp, recv, name, args, kwargs, fr):
-    raise Unsupported(f"regex method {name}")
